@@ -484,7 +484,59 @@ class Algebra:
                             cur.add(a)
                         if not bad:
                             out.append((frozenset(cur), v))
-        return self._expand_alternatives(self._resolve_helper_results(out))
+        out = self._resolve_helper_results(out)
+        if S.DEEP and self.depth == 0:
+            out = self._inline_value_helpers(out)
+        return self._expand_alternatives(out)
+
+    def _value_helper_calls(self, e, acc):
+        if not isinstance(e, tuple) or not e:
+            return
+        if e[0] == "call" and isinstance(e[1], str) and (e[1].startswith("darling_core::") or e[1].startswith("<darling_core::")) and e not in acc:
+            raws = self.crate.get("_raw_by_key", {}).get(e[1])
+            if raws and len(raws) == 1 and raws[0]["kind"] in ("Fn", "AssocFn") and str(raws[0].get("vis", "")).startswith("Restricted") and len(raws[0]["blocks"]) <= 16:
+                acc.append(e)
+        for x in e:
+            if isinstance(x, tuple):
+                self._value_helper_calls(x, acc)
+
+    def _inline_value_helpers(self, rows, fuel=2):
+        """deep mode: a value computed by a small private helper (`Core::default_rename_rule(&data)`)
+        is replaced by the helper's own cases"""
+        if fuel == 0:
+            return rows
+        out, changed = [], False
+        for conds, v in rows:
+            acc = []
+            self._value_helper_calls(v, acc)
+            done = False
+            for c in acc:
+                inl = self.inline_private(c[1], c[2], c[3] if len(c) > 3 else ())
+                if not inl or len(inl) > 4:
+                    continue
+                for at, hv in inl:
+                    cur, bad = set(conds), False
+                    for (ee, val) in at:
+                        if ee[0] in ("pc-of", "effect"):
+                            continue
+                        a_ = S.normalise_atom(self.rewrite(ee), val) if isinstance(val, bool) or ee[0] in ("call", "not", "bin", "discr") else (ee, val)
+                        f_ = S.fold_atom(a_[0], a_[1])
+                        if f_ is False:
+                            bad = True
+                            break
+                        if f_ is True:
+                            continue
+                        if any(x == a_[0] and S._contradict(y, a_[1]) for (x, y) in cur):
+                            bad = True
+                            break
+                        cur.add(a_)
+                    if not bad:
+                        out.append((frozenset(cur), _replace_subterm(v, c, hv)))
+                done = changed = True
+                break
+            if not done:
+                out.append((conds, v))
+        return self._inline_value_helpers(out, fuel - 1) if changed else out
 
     def _expand_alternatives(self, rows, fuel=3):
         """atoms that can be read through a definition (`is_enum(empty_from(x))`, `helper(x).is_some()`,
